@@ -51,9 +51,19 @@ def decode(arch):
         if no == 3:
             d["total"] = v
         elif no == 4:
+            d["params"] = {"bits": 0, "min_s": 0, "max_s": 0, "window": 0, "hash_len": 0, "alg": 0}
             for n2, w2, v2 in _msg(v):
                 if n2 == 5:
                     d["hash_len"] = v2
+                if n2 in (1, 2, 3, 4, 5, 6) and w2 == 0:
+                    d["params"][{1: "bits", 2: "min_s", 3: "max_s", 4: "window", 5: "hash_len", 6: "alg"}[n2]] = v2
+        elif no == 5:
+            d["compression"] = {"type": 0, "level": 0}
+            for n2, w2, v2 in _msg(v):
+                if n2 == 2:
+                    d["compression"]["type"] = v2
+                elif n2 == 3:
+                    d["compression"]["level"] = v2
         elif no == 6:
             if wt == 0:
                 d["order"].append(v)
